@@ -80,6 +80,8 @@ namespace ratio
             assert(get_sat_core().value(gr.gamma) == True);
 
             // we search for a consistent solution without flaws..
+            do
+            {
 #ifdef CHECK_INCONSISTENCIES
             // we solve all the current inconsistencies..
             solve_inconsistencies();
@@ -163,6 +165,9 @@ namespace ratio
                 solve_inconsistencies();
             } while (!flaws.empty());
 #endif
+                // the arithmetic atoms which are still unassigned are decided as the current values make them, so that the values
+                // reported with the solution satisfy also those constraints whose clauses are not backed by any flaw..
+            } while (decide_pending_atoms());
             // Hurray!! we have found a solution..
             LOG(std::to_string(trail.size()) << " (" << std::to_string(flaws.size()) << ")");
             FIRE_STATE_CHANGED();
@@ -174,6 +179,20 @@ namespace ratio
             FIRE_INCONSISTENT_PROBLEM();
             return false;
         }
+    }
+
+    bool solver::decide_pending_atoms()
+    {
+        bool decided = false;
+        for (const auto &l : get_lra_theory().get_unassigned_assertions())
+            if (get_sat_core().value(l) == Undefined)
+            {
+                take_decision(l);
+                decided = true;
+                if (!flaws.empty())
+                    return true; // some conflict has reopened some flaw: we go back to the search..
+            }
+        return decided;
     }
 
     SOLVER_EXPORT void solver::take_decision(const lit &ch)
